@@ -28,13 +28,16 @@ import (
 	authzclient "k8s.io/client-go/kubernetes/typed/authorization/v1"
 	k8stesting "k8s.io/client-go/testing"
 
+	proxyv1alpha1 "github.com/kubewharf/kubegateway/pkg/apis/proxy/v1alpha1"
 	"github.com/kubewharf/kubegateway/pkg/clusters"
 	tokenwebhook "github.com/kubewharf/kubegateway/pkg/gateway/authentication/token/webhook"
 	sarwebhook "github.com/kubewharf/kubegateway/pkg/gateway/authorization/webhook"
 	"github.com/kubewharf/kubegateway/pkg/gateway/endpoints/request"
 	"github.com/kubewharf/kubegateway/pkg/zzverif/vsched"
 
+	"verifh/e2e"
 	"verifh/ev"
+	"verifh/kit"
 	"verifh/xa"
 	"verifh/xstate"
 )
@@ -456,6 +459,205 @@ func harnesses(c *ev.Check, b int) []xa.Harness {
 	return []xa.Harness{harnessA(c, "concurrent-identical-authz-two-hosts", "authz", b, 1), harnessA(c, "concurrent-identical-authn-two-hosts", "authn", b, 1)}
 }
 
+// ------------------------------------------------------------------ which server a review is sent to (real manager)
+// The histories above replace the manager by a scripted provider so that answers can be controlled. "Each review is
+// sent to a ready endpoint of the request's own cluster" is decided here on the REAL clusters.Manager.ClientFor and
+// ClusterInfo.PickOne: the client set it hands out is used for one request, which is located at the stub API server
+// that received it.
+
+type revSys struct {
+	m     clusters.Manager
+	a, b  *clusters.ClusterInfo
+	ups   [3]*e2e.Upstream // e1, e2 (cluster a at the start), e3 (cluster b)
+	specA string
+	specB string
+	n     int
+}
+
+var revSpecsA = map[string]func(u [3]*e2e.Upstream) *proxyv1alpha1.UpstreamCluster{
+	"e1+e2": func(u [3]*e2e.Upstream) *proxyv1alpha1.UpstreamCluster { return e2e.ClusterObject("a", u[0], u[1]) },
+	"e2":    func(u [3]*e2e.Upstream) *proxyv1alpha1.UpstreamCluster { return e2e.ClusterObject("a", u[1]) },
+	"e1":    func(u [3]*e2e.Upstream) *proxyv1alpha1.UpstreamCluster { return e2e.ClusterObject("a", u[0]) },
+	"e1(disabled)+e2": func(u [3]*e2e.Upstream) *proxyv1alpha1.UpstreamCluster {
+		o := e2e.ClusterObject("a", u[0], u[1])
+		yes := true
+		o.Spec.Servers[0].Disabled = &yes
+		return o
+	},
+}
+var revSpecsB = map[string]func(u [3]*e2e.Upstream) *proxyv1alpha1.UpstreamCluster{
+	"e3":    func(u [3]*e2e.Upstream) *proxyv1alpha1.UpstreamCluster { return e2e.ClusterObject("b", u[2]) },
+	"e3+e1": func(u [3]*e2e.Upstream) *proxyv1alpha1.UpstreamCluster { return e2e.ClusterObject("b", u[2], u[0]) }, // e1 moved over from a
+}
+
+func (s *revSys) eligible(cl *clusters.ClusterInfo, obj *proxyv1alpha1.UpstreamCluster) map[int]bool {
+	out := map[int]bool{}
+	for _, sv := range obj.Spec.Servers {
+		if sv.Disabled != nil && *sv.Disabled {
+			continue
+		}
+		if info, ok := cl.Endpoints.Load(sv.Endpoint); ok && info.IsReady() {
+			for i, u := range s.ups {
+				if u.URL() == sv.Endpoint {
+					out[i] = true
+				}
+			}
+		}
+	}
+	return out
+}
+
+func specReviewEndpoint() xstate.Spec {
+	return xstate.Spec{
+		Name: "review-endpoint",
+		New: func() interface{} {
+			s := &revSys{m: clusters.NewManager(), specA: "e1+e2", specB: "e3"}
+			for i := range s.ups {
+				s.ups[i] = e2e.NewUpstream(fmt.Sprintf("e%d", i+1))
+			}
+			var err error
+			if s.a, err = clusters.CreateClusterInfo(revSpecsA[s.specA](s.ups), kit.NoopCheck, "", nil); err != nil {
+				panic(err)
+			}
+			if s.b, err = clusters.CreateClusterInfo(revSpecsB[s.specB](s.ups), kit.NoopCheck, "", nil); err != nil {
+				panic(err)
+			}
+			s.m.Add(s.a)
+			s.m.Add(s.b)
+			for _, cl := range []*clusters.ClusterInfo{s.a, s.b} {
+				for _, ep := range cl.AllEndpoints() {
+					info, _ := cl.Endpoints.Load(ep)
+					info.UpdateStatus(true, "", "")
+				}
+			}
+			return s
+		},
+		Events: func(si interface{}) []string {
+			s := si.(*revSys)
+			evs := []string{"review a", "review b"}
+			for k := range revSpecsA {
+				if k != s.specA {
+					evs = append(evs, "a "+k)
+				}
+			}
+			for k := range revSpecsB {
+				if k != s.specB {
+					evs = append(evs, "b "+k)
+				}
+			}
+			sort.Strings(evs)
+			for i := 0; i < 2; i++ {
+				evs = append(evs, fmt.Sprintf("unhealthy a e%d", i+1), fmt.Sprintf("healthy a e%d", i+1))
+			}
+			return evs
+		},
+		Apply: func(si interface{}, e string) error {
+			s := si.(*revSys)
+			f := strings.Fields(e)
+			switch f[0] {
+			case "a", "b":
+				cl, obj := s.a, revSpecsA[f[1]]
+				if f[0] == "b" {
+					cl, obj = s.b, revSpecsB[f[1]]
+				}
+				o := obj(s.ups)
+				if err := cl.Sync(o); err != nil {
+					return fmt.Errorf("sync-failed: %v", err)
+				}
+				if f[0] == "a" {
+					s.specA = f[1]
+				} else {
+					s.specB = f[1]
+				}
+				// an endpoint that is new to a cluster becomes ready once probed: the driver plays the probe
+				for _, sv := range o.Spec.Servers {
+					if info, ok := cl.Endpoints.Load(sv.Endpoint); ok && info.UnreadyReason() != "" && !(sv.Disabled != nil && *sv.Disabled) && f[0] == "b" {
+						info.UpdateStatus(true, "", "")
+					}
+				}
+			case "unhealthy", "healthy":
+				var i int
+				fmt.Sscanf(f[2], "e%d", &i)
+				if info, ok := s.a.Endpoints.Load(s.ups[i-1].URL()); ok {
+					info.UpdateStatus(f[0] == "healthy", "Failure", "probe")
+				}
+			case "review":
+				cl, obj := s.a, revSpecsA[s.specA](s.ups)
+				if f[1] == "b" {
+					cl, obj = s.b, revSpecsB[s.specB](s.ups)
+				}
+				want := s.eligible(cl, obj)
+				got, cs, err := s.m.ClientFor(f[1])
+				if got != cl && err == nil {
+					return fmt.Errorf("review-endpoint/wrong-cluster: ClientFor(%q) answered with cluster %v", f[1], got)
+				}
+				if len(want) == 0 {
+					if err == nil {
+						return fmt.Errorf("review-endpoint/asked-although-no-endpoint-ready: cluster %s has no enabled, healthy endpoint in its current server list, yet a client set for reviews was handed out", f[1])
+					}
+					return nil
+				}
+				if err != nil {
+					return fmt.Errorf("review-endpoint/refused-although-ready: cluster %s has ready endpoints %v but ClientFor failed: %v", f[1], want, err)
+				}
+				s.n++
+				tag := fmt.Sprintf("review-%d", s.n)
+				for _, u := range s.ups {
+					u.Requests()
+				}
+				_ = cs.Discovery().RESTClient().Get().AbsPath("/probe/" + tag).Do(context.TODO()).Error()
+				at := -1
+				for i, u := range s.ups {
+					for _, r := range u.Requests() {
+						if strings.HasSuffix(r.Path, tag) {
+							at = i
+						}
+					}
+				}
+				if !want[at] {
+					return fmt.Errorf("review-endpoint/sent-to-ineligible-server: a review for cluster %s (servers %s) was sent to e%d; its enabled, healthy current endpoints are %v (cluster b has %s)", f[1], map[string]string{"a": s.specA, "b": s.specB}[f[1]], at+1, keys(want), s.specB)
+				}
+			}
+			return nil
+		},
+		Canon: func(si interface{}) string {
+			s := si.(*revSys)
+			var st []string
+			for _, cl := range []*clusters.ClusterInfo{s.a, s.b} {
+				eps := cl.AllEndpoints()
+				sort.Strings(eps)
+				for _, ep := range eps {
+					info, _ := cl.Endpoints.Load(ep)
+					for i, u := range s.ups {
+						if u.URL() == ep {
+							st = append(st, fmt.Sprintf("%s:e%d:%v:%v", cl.Cluster, i+1, info.IsReady(), info.IstDisabled()))
+						}
+					}
+				}
+			}
+			// what the next reviews would do is part of the state (a remembered endpoint is invisible otherwise)
+			return fmt.Sprint(s.specA, s.specB, st, s.n%2)
+		},
+		Close: func(si interface{}) {
+			s := si.(*revSys)
+			s.a.Stop()
+			s.b.Stop()
+			for _, u := range s.ups {
+				u.Close()
+			}
+		},
+	}
+}
+
+func keys(m map[int]bool) []string {
+	var out []string
+	for k := range m {
+		out = append(out, fmt.Sprintf("e%d", k+1))
+	}
+	sort.Strings(out)
+	return out
+}
+
 func main() {
 	c := ev.Start("C12", "model_checking")
 	c.Assume = []string{
@@ -463,7 +665,7 @@ func main() {
 		"cache TTLs 0 and 1 h on the real clock (no expiry inside a run); a cached answer of the request's own cluster is allowed after that cluster changed its mind (TTL), an answer of another cluster never is",
 		"engine A: tokenreview.go and subjectaccessreview.go instrumented (sync.Map operations, statements, channel waits); each review call is a schedule point before and after the call",
 	}
-	specs := []xstate.Spec{spec(0), spec(time.Hour)}
+	specs := []xstate.Spec{spec(0), spec(time.Hour), specReviewEndpoint()}
 	if c.ReplayFile() != "" {
 		xstate.ReplayIfAsked(c, specs)
 		xa.ReplayIfAsked(c, harnesses(c, 0))
@@ -471,6 +673,7 @@ func main() {
 	var tasks []ev.Task
 	tasks = append(tasks, xstate.Tasks(c, spec(0), c.Pick(3, 4), 13)...)
 	tasks = append(tasks, xstate.Tasks(c, spec(time.Hour), c.Pick(4, 5), 26)...)
+	tasks = append(tasks, xstate.Tasks(c, specReviewEndpoint(), c.Pick(4, 5), 13)...)
 	bounds := []int{0, 1, 2}
 	if c.Thorough() {
 		bounds = []int{0, 1, 2, 3}
